@@ -19,6 +19,7 @@ import (
 
 	"verif/harness/fw"
 	"verif/harness/oracle/bip39m"
+	"verif/harness/prop/wordhack"
 )
 
 func init() {
@@ -27,7 +28,7 @@ func init() {
 		DeadlockIsViolation: true,                       // the calls of this property are synchronous functions of their inputs: a call blocked for good inside the library is a violation
 		Builds:              []string{"default", "386"}, // the 386 build runs 1/8 of the random classes on a 32-bit target
 		Scale386:            8,
-		Rule: "seed: valid mnemonics of all 13 lengths in both lists (given directly or parsed from a string joined by various white space) x passphrases from the corpus produced by tools/nfkd_corpus.py (python unicodedata NFKD; empty, ASCII, composed/decomposed accents, runs of combining marks, ligatures, full-width forms, Hangul, kana with dakuten, 1..200 code points; every character assigned since Unicode 3.2 that changes under NFKD appears): the 64 bytes must equal own PBKDF2-HMAC-SHA512(2048, words joined by single spaces, \"mnemonic\"+python-NFKD(passphrase)); invalid mnemonics must give an error and no seed; at every eighth point where the monitor selects or confirms the word list, a SetWordList call with an unregistered key follows (it must fail, and the list of the last successful call stays in force); seed_variant: a directly built Mnemonic holding a valid sentence's words NFC-composed or in fullwidth letters (inputs built with x/text, expectation from the embedded official list) must either be refused or give the seed of the normalized sentence; seed_sequence: a valid sentence, then the same printed form split into other elements, then the same sentence after SetWordList(other list) (both invalid), then back; concurrent: 8 goroutines decode sentences of all 13 lengths at once. parse: words in variant forms (as is, NFC, NFD, NFKC) joined by random runs of Unicode white space must parse to the python-NFKD words; parse(print(parse(s))) == parse(s) and the text (un)marshalers agree, on arbitrary strings; UnmarshalText is also called on buffers that the caller overwrites afterwards. " +
+		Rule: "seed: valid mnemonics of all 13 lengths in both lists (given directly or parsed from a string joined by various white space) x passphrases from the corpus produced by tools/nfkd_corpus.py (python unicodedata NFKD; empty, ASCII, composed/decomposed accents, runs of combining marks, ligatures, full-width forms, Hangul, kana with dakuten, 1..200 code points; every character assigned since Unicode 3.2 that changes under NFKD appears): the 64 bytes must equal own PBKDF2-HMAC-SHA512(2048, words joined by single spaces, \"mnemonic\"+python-NFKD(passphrase)); invalid mnemonics (a word missing, a non-word, another list's word, words cut to their unique four-letter prefix, a non-word colliding with the list word in its place under a common 32-bit digest) must give an error and no seed; at every eighth point where the monitor selects or confirms the word list, a SetWordList call with an unregistered key follows (it must fail, and the list of the last successful call stays in force); seed_variant: a directly built Mnemonic holding a valid sentence's words NFC-composed or in fullwidth letters (inputs built with x/text, expectation from the embedded official list) must either be refused or give the seed of the normalized sentence; seed_sequence: a valid sentence, then the same printed form split into other elements, then the same sentence after SetWordList(other list) (both invalid), then back; concurrent: 8 goroutines decode sentences of all 13 lengths at once. parse: words in variant forms (as is, NFC, NFD, NFKC) joined by random runs of Unicode white space must parse to the python-NFKD words; parse(print(parse(s))) == parse(s) and the text (un)marshalers agree, on arbitrary strings; UnmarshalText is also called on buffers that the caller overwrites afterwards. " +
 			"Non-trivial: seed cases whose passphrase changes under NFKD; parser inputs containing a non-ASCII byte.",
 		Assumptions: []string{"python3 unicodedata NFKD (independent of golang.org/x/text)", "HMAC-SHA512 of the Go standard library", "own PBKDF2 loop and bit-level model in harness/oracle/bip39m (self-tested on Trezor vectors in both languages)", "characters limited to those assigned since Unicode 3.2 outside the CJK compatibility ideograph blocks (normalization stability)"},
 		SelfTest:    bip39m.SelfTest,
@@ -508,7 +509,37 @@ func gen(g *fw.Gen) {
 			if j%8 == int(l) {
 				// an invalid variant of the sentence
 				w := list.Encode(ent)
-				switch g.Rng.Intn(4) {
+				kind := g.Rng.Intn(6)
+				if kind == 5 && g.Rng.Intn(8) != 0 {
+					kind = 1 // the collision search is expensive: one in eight
+				}
+				switch kind {
+				case 4: // words cut to their unique four-letter prefix (one, or all that have one)
+					all := g.Rng.Intn(2) == 0
+					for _, k := range g.Rng.Perm(len(w)) {
+						if p4, ok := wordhack.Prefix4(list, w[k]); ok {
+							w[k] = p4
+							if !all {
+								break
+							}
+						}
+					}
+				case 5: // a non-word that collides with the list word in its place under a common 32-bit digest
+					d := wordhack.Digests[g.Rng.Intn(len(wordhack.Digests))]
+					if cs, idx, ok := wordhack.FindCollision(g.Rng, list, l, d, 6000000); ok {
+						// put the list word it collides with into a sentence whose checksum fits, then swap it in
+						e2 := append([]byte(nil), ent...)
+						j := g.Rng.Intn(len(e2) * 8 / 11)
+						for b := 0; b < 11; b++ {
+							pos := 11*j + b
+							bit := byte(idx>>uint(10-b)) & 1
+							e2[pos/8] = e2[pos/8]&^(0x80>>uint(pos%8)) | bit<<uint(7-pos%8)
+						}
+						w = list.Encode(e2)
+						w[j] = cs
+					} else {
+						w[0] = "notaword"
+					}
 				case 0:
 					w = w[:len(w)-1]
 				case 1:
